@@ -74,7 +74,7 @@ class PreloadsSim(purity.PuritySim):
             "n_ops": r.randrange(25, 60),
             "n_clients": r.randrange(2, 6),
             "share_objects": r.random() < 0.5,
-            "harvest": r.random() < 0.25,
+            "harvest": r.random() < 0.35,
             "p_evict": r.choice([0.03, 0.08, 0.15]) if fault else 0.0,
             "p_rng": r.choice([0.02, 0.05]) if fault else 0.0,
             "p_solver": r.choice([0.0, 0.04, 0.08]) if fault else 0.0,
@@ -259,6 +259,11 @@ class PreloadsSim(purity.PuritySim):
             self.after_event(f"read:{tn}.{label}")
             return True
         self.log.append(ev="read", target=target, type=tn, q=label, outcome=compare.digest(tree))
+        if getattr(self, "internal_slots", False) and (tn == "InversionImagingMapping" or self.fit_inv.get(target) and type(self.world.env.get(self.fit_inv.get(target))).__name__ == "InversionImagingMapping"):
+            # the internal mapper slots were produced by w-tilde fits; they are not among the public slots the statement quantifies over
+            self.uncheck("internal_mapper_slots_are_formalism_specific")
+            self.after_event(f"read:{tn}.{label}")
+            return True
         if self.is_tainted(target):
             self.uncheck("after_absorbed_solver_fault")
             self.after_event(f"read:{tn}.{label}")
@@ -366,6 +371,10 @@ class PreloadsSim(purity.PuritySim):
         except (Exception, SystemExit) as e:  # noqa: BLE001
             out = "raises " + type(e).__name__
         self.harvested = True
+        P = self.world.env.get(self.meta["P"])
+        if P is not None and (getattr(P, "curvature_matrix_mapper_diag", None) is not None or getattr(P, "data_vector_mapper", None) is not None):
+            self.internal_slots = True
+            self.probe("internal_mapper_slots_harvested")
         self.slot_fp = None
         self.probe("harvest:" + q["name"])
         self.log.append(ev="harvest", q=q["name"], outcome=out, slots=sorted(s for s, fp in self.slots_fingerprint().items() if fp is not None))
@@ -421,7 +430,7 @@ class PreloadsSim(purity.PuritySim):
                 continue
             if client["inv"] is None or (client["refitted"] < 2 and rs.random() < 0.08):
                 # build (or re-build: the "successive inversions" of the statement) an inversion that uses P
-                use_w = rs.random() < 0.6
+                use_w = rs.random() < 0.6 or getattr(self, "internal_slots", False)
                 objs = m["L"] if (k["share_objects"] or rs.random() < 0.5) else m["L2"]
                 nid = self.new_node_id("inv")
                 ds_id = m["DI"] if (m.get("DI") and m["DI"] in env and rs.random() < 0.5) else m["D"]
@@ -462,9 +471,16 @@ class PreloadsSim(purity.PuritySim):
         """Preloads.set_*(fit_0, fit_1) with two fits of identical inputs, then the clients keep using P."""
         m = self.meta
         ids = []
-        for tag, objs, ds in (("h0", m["L2"], m["D2"]), ("h1", m["L2"], m["D2"])):
+        second = m["L3"] if (m.get("L3") and rs.random() < 0.6) else m["L2"]
+        if second is not m["L2"]:
+            self.probe("harvest_fits_differ_in_function_lists")
+        # fits that differ in their function lists make set_curvature_matrix fill the INTERNAL mapper slots, which are specific to
+        # the formalism that produced them (and whose mapping-formalism producer raises IndexError for an unregularized function
+        # list on the pinned tree - outside the three properties, noted in DESIGN 11.5): those fits use the w-tilde formalism
+        h_settings = m["st_w"] if (second is not m["L2"] or rs.random() < 0.5) else m["st_m"]
+        for tag, objs, ds in (("h0", m["L2"], m["D2"]), ("h1", second, m["D2"])):
             iid = self.new_node_id("hinv")
-            self.apply({"op": "node", "client": "harvester", "node": {"id": iid, "kind": "inversion", "dataset": {"$node": ds}, "objs": [{"$node": o} for o in objs], "settings": {"$node": m["st_w"] if rs.random() < 0.5 else m["st_m"]}}})
+            self.apply({"op": "node", "client": "harvester", "node": {"id": iid, "kind": "inversion", "dataset": {"$node": ds}, "objs": [{"$node": o} for o in objs], "settings": {"$node": h_settings}}})
             fid = self.new_node_id("hfit")
             self.apply({"op": "node", "client": "harvester", "node": {"id": fid, "kind": "fit_imaging", "dataset": {"$node": ds}, "inversion": {"$node": iid}}})
             ids.append(fid)
@@ -543,6 +559,6 @@ ASSUMPTIONS = [
     "sampling, not enumeration: a clean batch is evidence, not proof",
 ]
 TIERS = {
-    "quick": {"batches": [("nofault", 1300), ("fault", 700)], "wall_cap": 100.0},
+    "quick": {"batches": [("nofault", 1800), ("fault", 1000)], "wall_cap": 100.0},
     "thorough": {"batches": [("nofault", 40000), ("fault", 20000)], "wall_cap": 1200.0, "selftest_seeds": 30},
 }
